@@ -586,7 +586,7 @@ PROPS.update({
         level_text='Lean corollaries: for attribute-free items the documented rule proved in C01/C06/C07/C10/C11 is the standard derive\'s rule; L2: twin programs (same definition under derive_ex and under derive) over a shape grammar incl. empty enums, unsized tails, raw identifiers, lifetimes, const parameters, parameter defaults; all values / pairs, ten format specs, clone_from over all pairs; the compile-on-every-shape part is decided by rustc, not by a theorem',
     ),
     'C13': dict(
-        explanation='theorems: for every item and argument list every token the expander writes literally is punctuation, a keyword, a primitive type, a literal, a `__`-reserved name or one of three block-local names; every other generated identifier is a segment of an absolute ::core path, a member name or attribute content (attr_output_hygienic, derive_output_hygienic over provenance-carrying tokens). L1 ties every token to the implementation; L2: the well-typed grammar under a hostile-name dictionary in four scopes.',
+        explanation='theorems: for every item and argument list every token the expander writes literally is punctuation, a keyword, a literal or a `__`-reserved name; no template calls anything in method syntax or writes `Self::name` where `Self` may be an enum; every other generated identifier is a segment of an absolute ::core path, a member name or attribute content (attr_output_hygienic, derive_output_hygienic over provenance-carrying tokens). L1 ties every token to the implementation; L2: the well-typed grammar under a hostile-name dictionary in four scopes.',
         theorems=[(CMP + 'C13Hyg', ['DX.attr_output_hygienic', 'DX.derive_output_hygienic', 'DX.hyg_makeIdent', 'DX.absPath_strs', 'DX.kind_paths_rooted']), ('DeriveExModel.Props.QuoteIdents', ['DX.quote_table_free_ok', 'DX.quote_table_abs_roots_core', 'DX.quote_table_no_relative_paths', 'DX.quote_table_no_method_calls', 'DX.quote_table_self_paths', 'DX.quote_table_singles_ok', 'DX.quote_table_binder_prefixes', 'DX.quote_table_formats_known', 'DX.quote_table_nonempty']),  (CMP + 'C13Ren', ['DX.mentions_rename', 'DX.mentions_paramSet_rename', 'DX.paramSet_rename', 'DX.isSelf_rename', 'DX.expandSelf_rename', 'DX.mayBeUnsized_rename', 'DX.whereClause_rename']), (CMP + 'C20', ['DX.introduced_names_reserved', 'DX.makeIdent_shape', 'DX.helper_free_of_field_type',
                                  'DX.expandSelf_no_self']),
                   ('DeriveExModel.Props.Tables', ['DX.trait_table_model'])],
@@ -595,7 +595,7 @@ PROPS.update({
         # the hygiene theorem speaks about every token of every template: any token disagreement breaks its tie to the code
         kinds=('panic', 'nondet', 'parse', 'tokens', 'tokens-body', 'count'),
         extra=extras(extra_rustc(l2gen.gen_c13_case, 900, 12000), extra_rustc(l2gen.gen_seq_case, 120, 3000), extra_rustc(l2gen.gen_macro_case, 120, 3000)),
-        level_text='partial: rustc is the judge of name resolution. Proved (Lean, for every item and argument list): every token the expander writes literally is punctuation, a keyword, a primitive type, a literal, a `__`-reserved name or one of three block-local names; all other generated identifiers are segments of absolute `::core::..` paths, member names or attribute contents (provenance-carrying tokens, attr_output_hygienic / derive_output_hygienic); per-field binders keep the reserved prefix; nested helper items never mention the field type. L1 ties every token to the implementation; L2 compiles a well-typed grammar under a hostile-name dictionary in four scopes (incl. a blanket trait offering every method name the generated code calls)',
+        level_text='partial: rustc is the judge of name resolution. Proved (Lean, for every item and argument list): every token the expander writes literally is punctuation, a keyword, a literal or a `__`-reserved name; no template calls anything in method syntax or writes `Self::name` where `Self` may be an enum; all other generated identifiers are segments of absolute `::core::..` paths, member names or attribute contents (provenance-carrying tokens, attr_output_hygienic / derive_output_hygienic); per-field binders keep the reserved prefix; nested helper items never mention the field type. L1 ties every token to the implementation; L2 compiles a well-typed grammar under a hostile-name dictionary in four scopes (incl. a blanket trait offering every method name the generated code calls)',
         level_note='Trusted: rustc as the oracle; the generator of well-typed programs (bin/l2gen.py); the rule set is validated against rustc, not proved complete.',
     ),
     'C20': dict(
@@ -625,7 +625,8 @@ PROPS.update({
         l1_is_concrete=('tokens', 'class'),
         l1_concrete_text='the re-emitted item differs from the input minus the documented derive_ex-owned attributes (the model, proved equal to docStrip*)',
         extra=extras(extra_programs(l2gen.gen_c14_program, 120, 2400, what='foreign content of the annotated item did not survive the attribute macro'),
-                     extra_verdicts(l2gen.gen_c14_error_case, 96, 1200)),
+                     extra_verdicts(l2gen.gen_c14_error_case, 96, 1200),
+                     extra_rustc(l2gen.gen_macro_case, 120, 3000)),
     ),
     'C15': dict(
         explanation='theorems: the impls are the same through either entry point, for merged and split lists, in list order (entry_equiv_*, split_equiv, order_preserved); an entry of the list yields the same impls under any two co-derived sets when the item carries no helper attribute that belongs only to the other traits (struct_any_coderived_set, enum_any_coderived_set). Metamorphic real-vs-real comparisons need no model: attribute macro vs #[derive(Ex)], merged vs split, one trait alone vs with the others.',
